@@ -5,7 +5,10 @@
 P="$1"; shift
 WT=/tmp/wt-try
 [ -d $WT ] || git -C /repo worktree add -q --detach $WT HEAD
-git -C $WT checkout -q --detach "$(git -C /repo rev-parse HEAD)"; git -C $WT checkout -q -- .; git -C $WT clean -fdq
+BASE="$(git -C /repo rev-parse HEAD)"
+# a patch written against an older commit of /repo names it in a file BASE beside it
+[ -f "$(dirname "$P")/BASE" ] && BASE="$(cat "$(dirname "$P")/BASE")"
+git -C $WT checkout -q --detach "$BASE"; git -C $WT checkout -q -- .; git -C $WT clean -fdq
 case "$P" in
   revert:*) git -C $WT revert --no-commit "${P#revert:}" >/dev/null 2>&1 || { echo "revert failed"; git -C $WT revert --abort 2>/dev/null; git -C $WT checkout -q -- .; exit 2; } ;;
   *) git -C $WT apply "$P" || { echo "apply failed"; exit 2; } ;;
